@@ -95,6 +95,7 @@ package keeper
 //@      let r1 := (len(pricing) != 0 ? old(raw)[KPricing(serviceName, provider) := enc_Pricing(parsePricing(pricing))] : old(raw)) in
 //@      raw == ((qos != 0 || len(deposit) != 0 || len(pricing) != 0) ? r1[KBind(serviceName, provider) := enc_ServiceBinding(nb)] : r1))
 //@ ensures [C03] deposits_in_custody_kept: err == NoErr && depInv(old(raw), old(bal)) ==> depInv(raw, bal)
+//@ ensures [C05] error_moves_no_coins: err != NoErr ==> bal == old(bal)
 
 //@ func (Keeper).Slash
 //@ props C04 C03 C14
@@ -382,3 +383,25 @@ package keeper
 //@ props C16 C09
 //@ modifies raw
 //@ ensures [C16] context_removed: raw == old(raw)[KCtx(requestContextID) := bnil]
+
+//@ func (Keeper).CreateRequestContext
+//@ props C10 C09 C18 C15 C11
+//@ modifies raw
+//@ requires in_range: 0 <= repeatedFrequency && repeatedFrequency <= 18446744073709551615 && 0 <= responseThreshold && responseThreshold <= 4294967295 && 0 <= state && state <= 2
+//@ witness hash Bytes := txHash
+//@ witness index Int := msgIndex
+//@ ensures [C18] id_from_tx_hash_and_message_index: err == NoErr ==> result0 == mkCtxID(hash, index)
+//@ ensures [C15] only_for_a_defined_service: err == NoErr ==> defFound(old(raw), serviceName)
+//@ ensures [C10] timeout_within_the_bound: err == NoErr ==> timeout <= params.MaxRequestTimeout
+//@ ensures [C09,C10] stored_as_requested: err == NoErr ==> raw[KCtx(result0)] == enc_RequestContext(mkRequestContext(serviceName, providers, consumer, input, serviceFeeCap, moduleName, timeout, superMode, repeated,
+//@      (repeated ? (repeatedFrequency == 0 ? wrap_u64(timeout) : repeatedFrequency) : 0), (repeated ? repeatedTotal : 0), 0, 0, 0, responseThreshold, responseThreshold, BATCHCOMPLETED, state))
+//@ ensures [C10,C11] first_batch_queued_for_the_end_of_this_block: err == NoErr ==> raw == (let r1 := old(raw)[KCtx(result0) := raw[KCtx(result0)]] in
+//@      (state == RUNNING ? r1[KNewQ(ctxHeight(ctx), result0) := idVal(result0)][KNewH(result0) := hVal(ctxHeight(ctx))] : r1))
+//@ ensures error_changes_nothing: err != NoErr ==> raw == old(raw)
+
+//@ func (Keeper).AddServiceDefinition
+//@ props C15
+//@ modifies raw
+//@ ensures [C15] second_definition_rejected: err == NoErr ==> !defFound(old(raw), name)
+//@ ensures [C15] stored_under_its_name_nothing_else_changes: err == NoErr ==> raw == old(raw)[KDef(name) := enc_ServiceDefinition(mkServiceDefinition(name, description, tags, author, authorDescription, schemas))]
+//@ ensures error_changes_nothing: err != NoErr ==> raw == old(raw)
